@@ -219,7 +219,7 @@ def run(ctx, pid="C12"):
     st_job, st_drv, st_verdict = self_test(ctx)
     level = 1 if quick else 2
     jobs = []            # (dseed, calls, via_mode)
-    nsim = 40 if quick else 200
+    nsim = 40 if quick else 150
     _, behs = ctx.simulate_behaviours(
         MOD, "ClassModelImplSim.cfg", nsim, 15,
         label="behaviour emission (Create/Modify/Delete/CreateInst "
@@ -237,7 +237,7 @@ def run(ctx, pid="C12"):
             calls.append(c)
         jobs.append((ctx.rng.randrange(1 << 30), calls, "given"))
     ctx.extra["tlc_behaviours_replayed"] = len(behs)
-    nrand = 70 if quick else 600
+    nrand = 70 if quick else 450
     for i in range(nrand):
         dseed = ctx.rng.randrange(1 << 30)
         rng = random.Random(dseed ^ 0x5bd1e995)
